@@ -8,10 +8,10 @@ import Rl.Wire
 import Rl.Drv.History
 open Rl Rl.Wire
 
-def dispatch (tbl : CharTable) (target : String) (f : List String) (_impl : String) : String × String :=
+def dispatch (tbl : CharTable) (target : String) (f : List String) (impl : String) : String × String :=
   let r : Option (String × String) :=
     match target with
-    | "hist" => Rl.Drv.History.handle tbl f
+    | "hist" => Rl.Drv.History.handle tbl f impl
     | _ => some ("unknown-target", "-")
   r.getD ("bad-request", "bad-request")
 
